@@ -15,6 +15,9 @@ var c19Exprs = []string{
 	"let $x = a in let $y = $x in let $x = b in [$x, $y]",
 	"let $x = a, $y = $x in $y",
 	"let $x = a in let $x = b, $y = $x in $y",
+	"let $x = a, $y = b in let $x = b in [$x, $y]",
+	"let $y = a in let $x = a, $y = b in let $x = b in [$x, $y]",
+	"let $x = a, $y = b in b[*].[let $y = a in [$x, $y]]",
 	"let $x = a in b[*].[let $x = a in $x, $x]",
 	"let $x = a in map(&[$x, @], b)",
 	"let $x = a in sort_by(b, &a)[*].[$x]",
